@@ -230,7 +230,8 @@ class BandMerger(object):
                 result_bands[i] = b
 
         result = Image.merge(tmp_mode, result_bands)
-        return ImageSource(result, size=size, image_opts=image_opts)
+        cacheable = self.cacheable and all(src.cacheable for src in sources)
+        return ImageSource(result, size=size, image_opts=image_opts, cacheable=cacheable)
 
 
 def merge_images(layers, image_opts, size=None, bbox=None, bbox_srs=None, merger=None):
